@@ -983,10 +983,7 @@ class History:
         repeated CreateInstance with the key of a stored instance.  What they
         leave behind is a repository like any other."""
         g, rng = self.g, self.rng
-        cand = [a for a in g.assocs if a['cls'].id_key and a['id'] and
-                a['id'].startswith('a') and
-                all(c.explicit_assoc for c in a['cls'].chain()) and
-                all(v is not None for v in a['refs'].values())]
+        cand, multi = self.rewire_candidates()
         if not cand:
             return False
         self.phase = 'rewire'
@@ -994,14 +991,21 @@ class History:
         self.focus = []
         self.rewired = set()
         self.rewired_ids = set()
-        multi = [a for a in cand if len(self.assoc_nss(a)) > 1]
-        for _ in range(rng.choice([2, 3, 4])):
+        for _ in range(rng.choice([3, 4, 5])):
             a = rng.choice(multi if multi and rng.random() < 0.7 else cand)
             if rng.random() < 0.6:
                 self.rewire_modify(a)
             else:
                 self.rewire_duplicate(a)
         return bool(self.rewired)
+
+    def rewire_candidates(self):
+        g = self.g
+        cand = [a for a in g.assocs if a['cls'].id_key and a['id'] and
+                a['id'].startswith('a') and
+                all(c.explicit_assoc for c in a['cls'].chain()) and
+                all(v is not None for v in a['refs'].values())]
+        return cand, [a for a in cand if len(self.assoc_nss(a)) > 1]
 
     def assoc_nss(self, a, refs=None):
         refs = a['refs'] if refs is None else refs
@@ -1012,16 +1016,27 @@ class History:
         g, rng = self.g, self.rng
         ac = a['cls']
         allrefs = ac.all_refs()
-        ln = rng.choice(sorted(a['refs']))
-        name, nc, _is_key = allrefs[ln]
-        old = a['refs'][ln]
-        comp = [i for i in cg.compatible_nodes(g, nc) if i != old]
-        same_ns = [i for i in comp if g.nodes[i][0] == g.nodes[old][0]]
-        pool = same_ns if same_ns and rng.random() < 0.5 else comp
-        if not pool:
-            return
-        new = rng.choice(pool)
         before = self.assoc_nss(a)
+        # moves after which the instance references fewer namespaces
+        shrink = []
+        for ln in sorted(a['refs']):
+            for i in cg.compatible_nodes(g, allrefs[ln][1]):
+                if i != a['refs'][ln] and \
+                        self.assoc_nss(a, dict(a['refs'], **{ln: i})) < before:
+                    shrink.append((ln, i))
+        if shrink and rng.random() < 0.6:
+            ln, new = rng.choice(shrink)
+            name, nc, _is_key = allrefs[ln]
+        else:
+            ln = rng.choice(sorted(a['refs']))
+            name, nc, _is_key = allrefs[ln]
+            old = a['refs'][ln]
+            comp = [i for i in cg.compatible_nodes(g, nc) if i != old]
+            same_ns = [i for i in comp if g.nodes[i][0] == g.nodes[old][0]]
+            pool = same_ns if same_ns and rng.random() < 0.5 else comp
+            if not pool:
+                return
+            new = rng.choice(pool)
         refs = dict(a['refs'])
         refs[ln] = new
         after = self.assoc_nss(a, refs)
@@ -1101,6 +1116,11 @@ class History:
         self.class_level()
         r = self.rng.random()
         again = False
+        if r >= 0.5 and self.rewire_candidates()[1]:
+            # cross-namespace instances whose references can be changed:
+            # the rarest kind of graph gets the rewire phase whenever it
+            # is not one of the other two
+            r = 0.5
         if r < 0.25:
             again = self.phase_null_ends()
         elif r < 0.42:
@@ -1113,7 +1133,14 @@ class History:
 
 
 def run_case(ctx, i, rng):
-    g = cg.gen_graph(rng, implicit_assoc_p=0.2)
+    if i % 3 == 2:
+        # graphs made for the rewire phase: two namespaces, association
+        # instances keyed by an id (their references can be modified)
+        g = cg.gen_graph(rng, implicit_assoc_p=0.1, two_ns=True,
+                         id_key_p=1.0)
+        ctx.cls('graph-for-rewire')
+    else:
+        g = cg.gen_graph(rng, implicit_assoc_p=0.2)
     ctx.cls('namespaces/%d' % len(g.namespaces))
     ctx.cls('assoc-classes/%d' % len(g.assoc_classes))
     h = History(ctx, rng, g)
